@@ -1213,6 +1213,15 @@ impl Writer {
       // SN.
       if pending_gaps.contains(&unsent_sn) || all_irrelevant_before.is_some() {
         no_longer_relevant.extend(pending_gaps);
+      } else if self
+        .history_buffer
+        .get_by_sn(unsent_sn)
+        .and_then(|cc| cc.write_options.to_single_reader())
+        .is_some_and(|single_reader_guid| single_reader_guid != reader_guid)
+      {
+        // The requested sample was written for some other reader only, so it is not
+        // relevant to this reader (e.g. a late joiner). Answer with a GAP instead.
+        no_longer_relevant.insert(unsent_sn);
       } else {
         // Reader not pending gap on unsent_sn. Get the cache change from topic cache
         if let Some(cc) = self.history_buffer.get_by_sn(unsent_sn) {
